@@ -1,5 +1,6 @@
 import MesaModel.Model.StepMro
 import MesaModel.Model.StepNested
+import MesaModel.Model.StepBinding
 /-!
 Line-protocol driver of the step-counter model (C05).  Producer: harness/c05.py.
 
@@ -19,6 +20,15 @@ Line-protocol driver of the step-counter model (C05).  Producer: harness/c05.py.
   rearm i k                model_i.running = True; stop k body executions from now
   halt i                   model_i.running = False
 Every answer carries the counters of all instances: `… || steps=1,0,3 running=1,1,0`.
+
+How `step` is bound on an instance (Model/StepBinding.lean); these objects live in a list of their own:
+  bnew c f|-               instantiate chain class c; `f`: its `__init__` assigns `self.step = fn_f` before `super().__init__()`
+                           → ok obj=K || b=<steps of all objects>
+  bstep k a1 a2 …          obj_k.step(a1, …) → ok|err Type|err Runtime log=<class bodies> fn=<f@steps/args,…> || b=…
+                           (functions numbered 50 and up raise RuntimeError after making their record)
+  bassign k f              obj_k.step = fn_f
+  bdel k                   del obj_k.step            (err Attr if there is no instance attribute)
+  buser k f                obj_k._user_step = fn_f
 -/
 open Mesa.Steps
 
@@ -38,6 +48,7 @@ structure St where
   lvls : List Level := [default]       -- … and how each defines `step` (entry 0 = `mesa.Model`, unused)
   labels : List (List Nat) := []       -- per instance: the label its bodies record, by depth
   links : List (Option Nat) := []      -- per instance: the sub-model its step bodies step
+  objs : List Obj := []                -- `bnew` objects
 
 def fmtEntry (lab : List Nat) (e : Entry) : String :=
   s!"{lab[e.depth]?.getD e.depth}@{e.steps}" ++ (if e.args.isEmpty then "" else "/" ++ ".".intercalate (e.args.map toString))
@@ -57,9 +68,58 @@ def fmtCall (st : St) (c : Call) : String :=
 def fmtSubs (st : St) (subs : List Call) : String :=
   if subs.isEmpty then "" else " sub=" ++ ";".intercalate (subs.map fun c => s!"{c.inst}>{fmtCall st c}")
 
+def fmtObjs (os : List Obj) : String := s!"b={",".intercalate (os.map (toString ·.inst.steps))}"
+
+def fmtFn (c : FnCall) : String :=
+  s!"{c.f}@{c.steps}" ++ (if c.args.isEmpty then "" else "/" ++ ".".intercalate (c.args.map toString))
+
 def stepLine (st : St) (ws : List String) : St × String :=
   let bad := (st, "bad-op")
   match ws with
+  | ["bnew", c, f] =>
+    match c.toNat?, (if f = "-" then some none else f.toNat?.map some) with
+    | some c, some pre =>
+      match st.classes[c]? with
+      | some h =>
+        let os := st.objs ++ [Obj.construct h 1000000 pre]
+        ({ st with objs := os }, s!"ok obj={st.objs.length} || {fmtObjs os}")
+      | none => bad
+    | _, _ => bad
+  | "bstep" :: k :: args =>
+    match k.toNat?, args.mapM (·.toInt?) with
+    | some k, some args =>
+      match st.objs[k]? with
+      | some o =>
+        let r := o.call args
+        let os := st.objs.set k r.obj
+        ({ st with objs := os },
+         (if r.ok then "ok" else if r.fns.any (fun c => raisesFn c.f) then "err Runtime" else "err Type") ++
+           s!" log={",".intercalate (r.entries.map (fmtEntry []))} fn={",".intercalate (r.fns.map fmtFn)} || {fmtObjs os}")
+      | none => bad
+    | _, _ => bad
+  | ["bassign", k, f] =>
+    match k.toNat?, f.toNat? with
+    | some k, some f =>
+      match st.objs[k]? with
+      | some o => let os := st.objs.set k (o.apply (.assign f)); ({ st with objs := os }, s!"ok || {fmtObjs os}")
+      | none => bad
+    | _, _ => bad
+  | ["buser", k, f] =>
+    match k.toNat?, f.toNat? with
+    | some k, some f =>
+      match st.objs[k]? with
+      | some o => let os := st.objs.set k (o.apply (.setUser f)); ({ st with objs := os }, s!"ok || {fmtObjs os}")
+      | none => bad
+    | _, _ => bad
+  | ["bdel", k] =>
+    match k.toNat? with
+    | some k =>
+      match st.objs[k]? with
+      | some o =>
+        if o.dictStep.isNone then (st, s!"err Attr || {fmtObjs st.objs}")
+        else let os := st.objs.set k (o.apply .del); ({ st with objs := os }, s!"ok || {fmtObjs os}")
+      | none => bad
+    | none => bad
   | ["scenario", "steps"] => ({ classes := [], insts := [] }, "ok")
   | "class" :: lv =>
     match (if lv = ["-"] then some [] else lv.mapM parseLevel) with
